@@ -149,30 +149,42 @@ def spell(kind: str, proj: Path, rel: str, L: int | None) -> str:
 def c13_case(case):
     rng = random.Random(case["seed"])
     cid, code, n = case["codemod"], case["code"], case["n"]
-    lay = sites.build(code, n, [rng.randint(1, 3) for _ in range(n)], 0)
-    if lay is None:
-        return {"drop": "layout"}
+    pads = [rng.randint(1, 3) for _ in range(n)]
     root = common.tmpdir("c13")
     try:
         proj = root / "p"
-        e2e.write_project(proj, {"pkg/base.py": lay.text})
-        r0 = e2e.run(proj, ["--codemod-include", cid])
-        after0 = (proj / "pkg/base.py").read_text()
-        r = sites.changed_original_lines(lay, after0)
-        if r is None:
-            return {"drop": "markers-lost"}
-        changed0 = r[0]
-        per_site = {}
-        for L in changed0:
-            s = lay.site_of_line(L)
-            if s is None:
-                return {"drop": "change-outside-sites"}
-            per_site.setdefault(s, []).append(L)
-        if len(per_site) != n or any(len(v) != 1 for v in per_site.values()):
-            return {"drop": "not-n-single-line-sites"}
-        C = [per_site[i][0] for i in range(n)]
+        lay = C = None
+        why = "layout"
+        # each site in its own function first (independent local names); module-level layout as a fallback
+        for indent, wrap in ((4, "def"), (0, "if")):
+            cand = sites.build(code, n, pads, indent, wrap)
+            if cand is None:
+                continue
+            e2e.write_project(proj, {"pkg/base.py": cand.text})
+            r0 = e2e.run(proj, ["--codemod-include", cid])
+            after0 = (proj / "pkg/base.py").read_text()
+            r = sites.changed_original_lines(cand, after0)
+            if r is None:
+                why = "markers-lost"; continue
+            per_site, outside = {}, False
+            for L in r[0]:
+                s_ = cand.site_of_line(L)
+                if s_ is None:
+                    outside = True
+                per_site.setdefault(s_, []).append(L)
+            if outside:
+                why = "change-outside-sites"; continue
+            if len(per_site) != n or any(len(v) != 1 for v in per_site.values()):
+                why = "not-n-single-line-sites"; continue
+            lay, C = cand, [per_site[i][0] for i in range(n)]
+            break
+        if lay is None:
+            return {"drop": why}
         rep0 = [c["lineNumber"] for res in (r0["report"] or {}).get("results", []) for cs in res["changeset"] for c in cs["changes"]]
-        out = {"codemod": cid, "sites": C, "baseline_lines": sorted(set(rep0)), "scenarios": []}
+        out = {"codemod": cid, "sites": C, "baseline_lines": sorted(set(rep0)), "scenarios": [],
+               "single_line": all(sites.single_line_construct(lay.text, L) for L in C)}
+        if not out["single_line"]:
+            return out   # only the change-line clause is judged (on the unfiltered run) for multi-line constructs
         # scenarios
         subsets = [list(s) for k in range(0, n + 1) for s in itertools.combinations(C, k)]
         scen = [(E, []) for E in subsets if E] + [([], I) for I in subsets if I]
@@ -291,6 +303,14 @@ def search(ctx):
             ctx.stat("drop:" + r["drop"])
             continue
         used.add(c["codemod"])
+        # clause 2 on the unfiltered run: an edit confined to one physical line is reported with that line
+        ctx.search_case("cli-change-line", {"codemod": c["codemod"], "sites": r["sites"]}, True)
+        miss = [L for L in r["sites"] if L not in r["baseline_lines"]]
+        if miss:
+            ctx.fail({"kind": "change-line", "codemod": c["codemod"], "missing_entry": True},
+                     f"{c['codemod']}: the edit is confined to line(s) {r['sites']} but the change entries name lines {r['baseline_lines']}", {"case": c, "sites": r["sites"], "report_lines": r["baseline_lines"]})
+        if not r["single_line"]:
+            ctx.stat("multi-line-construct")
         for s in r["scenarios"]:
             key = {"codemod": c["codemod"], "E": [r["sites"].index(x) for x in s["E"]], "I": [r["sites"].index(x) for x in s["I"]], "sp": s["spelling"]}
             ctx.search_case("cli-lines", key, s["expected"] != r["sites"])
